@@ -270,7 +270,15 @@ class Model:
                 elif isinstance(st, (ast.Import, ast.ImportFrom)):
                     for a in st.names:
                         order.setdefault(a.asname or a.name.split(".")[0], []).append(("import", st))
+            nested = {id(x) for st in m.tree.body if isinstance(st, (ast.If, ast.Try)) for x in ast.walk(st) if x is not st}
             for name, evs in order.items():
+                defs = [st for k, st in evs if k == "def"]
+                if len(defs) >= 2 and any(id(st) in nested for st in defs):
+                    # `if <condition>: def f ... else: def f ...` / `try: ... except: def f`: WHICH definition runs is decided
+                    # at import time by something the analysis does not evaluate
+                    self._world("W1", "refuse", f"{m.relpath}:{defs[-1].lineno}", m.relpath, f"{m.name.split('.', 1)[-1]}.{name}",
+                                f"`{name}` has {len(defs)} definitions, at least one under an `if` / `try` at module level: which one runs is "
+                                f"decided at import time by a condition the analysis does not evaluate")
                 if not any(k == "def" for k, _ in evs):
                     # a pure alias: `old_name = _new_impl` (no def of old_name at all)
                     kind, st = evs[-1]
